@@ -69,6 +69,8 @@ ALPHABET_QUICK = ["def1_sv", "link_c1_r1", "enable_all", "def2_dv", "link_c1_r12
                   "link_c2_r1", "def1_svdv", "disable_c1", "def1_unknown_vid", "link_c2_then_bad", "set_sv", "del2", "link_c1_r2",
                   "bad_then_def2", "link_bad_then_c2", "link_c1c2_r2", "link_c1c2_r1", "def12"]
 ALPHABET_FULL = list(REQUESTS) + ["set_sv"]
+# used by the concurrent part's set-up only (not in the BFS alphabets)
+REQUESTS["link_c2_r2"] = (35, [(2, [2])], False)
 
 
 class Ref:
@@ -363,8 +365,126 @@ def run_history(history):
     return out
 
 
+# ------------------------------------------------------------------------------------------ a request against a trigger
+REGION = [
+    "secsgem.gem.collection_event_capability:CollectionEventCapability._on_s02f33",
+    "secsgem.gem.collection_event_capability:CollectionEventCapability._on_s02f35",
+    "secsgem.gem.collection_event_capability:CollectionEventCapability._on_s02f37",
+    "secsgem.gem.collection_event_capability:CollectionEventCapability.trigger_collection_events",
+    "secsgem.gem.collection_event_capability:CollectionEventCapability._build_collection_event",
+    "secsgem.gem.collection_event_capability:CollectionEventCapability._get_reports_data",
+]
+CONC = ["delall", "del1", "unlink_c1", "disable_c1", "def1_svdv", "link_c1_r12", "link_c1_r2"]
+
+
+def run_conc(devs, budgets, request="delall"):
+    """Set-up: reports 1 (SV) and 2 (DV), CEID 1 linked to [1, 2], CEID 2 linked to [2], both enabled.  Then one configuration request
+    (handled on the dispatcher thread) races trigger_collection_events([1, 2]) on an application thread.  Whatever the order: each event is
+    reported at most once, well formed, with the reports linked before or after the request; an event whose configuration is the same
+    before and after is reported exactly once; no library thread dies."""
+    box = {}
+
+    def driver(s):
+        s.frozen = True
+        s.line_points = False
+        hx = Harness(s)
+        if not hx.ok:
+            box["harness"] = "could not establish communication"
+            return
+        for ev in ("def12", "link_c1_r12", "link_c2_r2", "enable_all"):
+            hx.apply(ev)
+        if hx.viol:
+            box["harness"] = f"set-up reported {hx.viol[0][0]}"
+            return
+        ep, h = hx.ep, hx.h
+        before = hx.ref.snapshot()
+        function, payload, _amb = REQUESTS[request]
+        body = s2f33(payload) if function == 33 else (s2f35(payload) if function == 35 else s2f37(*payload))
+        s.frozen = False
+        s.line_points = True
+        sysb = ep.send_primary(2, function, True, body)
+        h.trigger_collection_events([1, 2])
+        frames = []
+        for _ in range(6):
+            s.settle()
+            new = ep.pump()
+            frames += new
+            if not ep.auto_reply([f for f in new if f["system"] != sysb]):
+                break
+        s.line_points = False
+        s.frozen = True
+        box["ack"] = [f["body"].hex() for f in frames if f["stype"] == 0 and f["system"] == sysb]
+        box["s6f11"] = [f["body"] for f in frames if f["stype"] == 0 and (f["stream"], f["function"]) == (6, 11)]
+        box["before"] = before
+        box["after"] = lib_tables(h)
+        h.disable()
+
+    sched = vrt.run(driver, devs, budgets, max_steps=500000, max_time=1e6, line_points=True)
+    res = {"trace": sched.trace, "v": []}
+    case = {"part": "conc", "request": request}
+    if sched.harness_failure or sched.driver_exception or box.get("harness"):
+        res["harness"] = (sched.harness_failure or sched.driver_exception or box.get("harness"))[-1200:]
+        res["obs"] = None
+        return res
+    if sched.outcome != "done":
+        res["v"].append((f"C12|concurrent|execution-{sched.outcome}|{request}", {"case": case, "info": sched.deadlock_info}))
+        res["obs"] = sched.outcome
+        return res
+    errs = [e for e in sched.thread_errors if "KillThread" not in str(e)]
+    res["obs"] = {"s6f11": [b.hex() for b in box["s6f11"]], "ack": box["ack"], "errors": len(errs)}
+    if errs:
+        res["v"].append((f"C12|concurrent|library-thread-died|{request}", {"case": case, "errors": [str(e)[-400:] for e in errs[:2]]}))
+    if len(box["ack"]) != 1:
+        res["v"].append((f"C12|concurrent|request-answered-{len(box['ack'])}-times|{request}", {"case": case, "ack": box["ack"]}))
+    got = {}
+    for body in box["s6f11"]:
+        try:
+            node = gh.decode_body(body)
+            ceid = node[1][1][1][0]
+            rpts = [r[1][0][1][0] for r in node[1][2][1]]
+        except Exception as exc:  # noqa: BLE001
+            res["v"].append((f"C12|concurrent|S6F11-malformed|{request}", {"case": case, "error": repr(exc), "body": body.hex()}))
+            continue
+        got.setdefault(ceid, []).append(rpts)
+    for ceid in (1, 2):
+        b = box["before"][1].get(ceid, ([], False))
+        a = box["after"][1].get(ceid, ([], False))
+        reports = got.get(ceid, [])
+        if len(reports) > 1:
+            res["v"].append((f"C12|concurrent|event-reported-{len(reports)}-times|{request}", {"case": case, "ceid": ceid}))
+        for rpts in reports:
+            allowed = [x[0] for x in (b, a) if x[1] and x[0]]
+            if rpts not in allowed:
+                res["v"].append((f"C12|concurrent|S6F11-reports-neither-before-nor-after|{request}", {"case": case, "ceid": ceid, "got": rpts, "allowed": allowed}))
+        if not reports and b == a and b[1] and b[0]:
+            res["v"].append((f"C12|concurrent|event-with-unchanged-configuration-not-reported|{request}",
+                             {"case": case, "ceid": ceid, "errors": [str(e)[-300:] for e in errs[:1]]}))
+    return res
+
+
 def run(ctx):
+    # S part first (line tracing before any pool is forked)
+    from checks import hsms_harness as hh  # noqa: PLC0415
+    from mc import explore  # noqa: PLC0415
+
+    missing = hh.trace_region(REGION)
+    if missing:
+        ctx.note(f"not line-traced (not found): {missing}")
+    k = 3 if ctx.thorough else 2
+    cparts = []
+    ctrans = 0
+    for request in CONC:
+        st = explore.explore(ctx, run_conc, {"sched": k}, f"c12-conc-{request}", opts={"request": request}, chunk=8)
+        cparts.append({"request": request, "executions": st["executions"], "outcomes": st["distinct_outcomes"], "levels_completed": st["levels_completed"]})
+        ctrans += st["executions"]
+        if st["levels_completed"] < k:
+            ctx.exhaustive = False
+    ctx.setcov("concurrent_explorations", cparts)
+    ctx.setcov("delay_bound", k)
     ctx.assumptions += [
+        "concurrent part: one configuration request (dispatcher thread) against trigger_collection_events on an application thread, every schedule "
+        "with <= K delays at line granularity of the capability's handlers; no library thread may die, an S6F11 carries the reports linked before "
+        "or after the request",
         "reference table model in checks/c12.py; requests E5 leaves ambiguous (two definitions of one RPTID or duplicate RPTIDs in one "
         "request, redefining an existing report, linking an event that already has links) are held to I1-I3 only",
         "for a disabled or unlinked event S6F16 may carry an empty report list; enable requests naming unlinked CEIDs are not constrained",
@@ -386,6 +506,17 @@ def run(ctx):
 
 def replay(ctx, detail):
     case = detail["case"]
+    if case.get("part") == "conc":
+        from checks import hsms_harness as hh  # noqa: PLC0415
+
+        hh.trace_region(REGION)
+        devs = {int(k): v for k, v in case.get("devs", {}).items()}
+        r = run_conc(devs, case.get("budgets", {}), request=case["request"])
+        ctx.evaluations += 1
+        print("replayed:", r.get("obs"))
+        for sig, d in r["v"]:
+            ctx.violation(sig, d)
+        return
     r = run_history(case["history"])
     ctx.evaluations += 1
     print("replayed", case["history"], "->", r.get("canon"))
